@@ -119,7 +119,8 @@ impl TryFrom<&Value> for Number {
 
 impl Hash for Number {
     fn hash<H: std::hash::Hasher>(&self, state: &mut H) {
-        self.value.to_bits().hash(state);
+        // `0.0 == -0.0`, so both zeros have to hash alike
+        (self.value + 0.0).to_bits().hash(state);
         self.unit.hash(state);
     }
 }
@@ -148,7 +149,10 @@ impl Ord for Number {
         if self.value < other.value {
             Ordering::Less
         } else if self.value == other.value {
-            Ordering::Equal
+            // Same magnitude: order by unit, so that `Equal` means `==`
+            self.unit
+                .map(|unit| unit.symbol())
+                .cmp(&other.unit.map(|unit| unit.symbol()))
         } else {
             Ordering::Greater
         }
